@@ -198,6 +198,52 @@ def replay_cutout(c):
     return out
 
 
+def bbox_rows_case(seed):
+    """make_model_image without model_shape: every row is rendered on the window of the model's own bounding box for THAT row's parameters
+    (width-dependent), whether the columns are named after the parameters or mapped through params_map; the image is the sum of the
+    single-row images, in any row order"""
+    import random
+    from astropy.modeling.models import Gaussian2D
+    from astropy.table import Table
+    from photutils.datasets import make_model_image
+    from photutils.psf import CircularGaussianPRF
+    warnings.simplefilter('ignore')
+    rng = random.Random(seed)
+    shape = (41, 47)
+    n = rng.randint(2, 4)
+    out = []
+    for which in ('prf', 'gauss2d'):
+        rows = [dict(x=rng.uniform(3, 44), y=rng.uniform(3, 38), f=rng.uniform(50, 300), w=rng.choice([1.2, 2.0, 3.5, 5.0])) for _ in range(n)]
+        if which == 'prf':
+            model = CircularGaussianPRF()
+            names = {'x_0': 'x', 'y_0': 'y', 'flux': 'f', 'fwhm': 'w'}
+        else:
+            model = Gaussian2D()
+            names = {'x_mean': 'x', 'y_mean': 'y', 'amplitude': 'f', 'x_stddev': 'w', 'y_stddev': 'w'}
+        xn, yn = ('x_0', 'y_0') if which == 'prf' else ('x_mean', 'y_mean')
+        for mapped in (False, True):
+            def table(rs):
+                t = Table()
+                for par, key in names.items():
+                    t[(key + '_f200w') if mapped else par] = [r[key] for r in rs]
+                return t
+            kw = dict(x_name=xn, y_name=yn)
+            if mapped:
+                kw['params_map'] = {par: key + '_f200w' for par, key in names.items()}
+            sig = {'model': which, 'params_map': mapped, 'nrows': n, 'kind': 'bbox_rows'}
+            try:
+                full = make_model_image(shape, model, table(rows), **kw)
+                singles = sum(make_model_image(shape, model, table([r]), **kw) for r in rows)
+                rev = make_model_image(shape, model, table(rows[::-1]), **kw)
+            except Exception as e:  # noqa
+                out.append(('raises', sig, {'exc': repr(e), 'rows': rows})); continue
+            if not np.allclose(full, singles, rtol=1e-12, atol=1e-12):
+                out.append(('additive_over_rows_on_each_rows_own_bounding_box_window', sig, {'rows': rows, 'max_abs_diff': float(np.max(np.abs(full - singles)))}))
+            elif not np.allclose(full, rev, rtol=1e-12, atol=1e-12):
+                out.append(('row_order_invariant', sig, {'rows': rows, 'max_abs_diff': float(np.max(np.abs(full - rev)))}))
+    return out
+
+
 def psfphot_pairs(seed):
     """model / residual images of PSFPhotometry and IterativePSFPhotometry versus make_model_image of their own result tables,
     in both orders of include_localbkg"""
@@ -306,6 +352,11 @@ def run(ctx):
         for v in vs:
             ctx.violation(*v)
     ctx.evaluations += len(ov); ctx.traces += len(ov)
+    bb = core.pmap(bbox_rows_case, [ctx.seed * 17 + i for i in range(64 if q else 800)], chunksize=8)
+    for vs in bb:
+        for v in vs:
+            ctx.violation(*v)
+    ctx.evaluations += len(bb) * 4; ctx.traces += len(bb) * 4
     pr = core.pmap(psfphot_pairs, [ctx.seed * 7 + i for i in range(4 if q else 12)], procs=8, chunksize=1)
     for vs in pr:
         for v in vs:
